@@ -1,7 +1,8 @@
 (* C10 — Delayed reactions deliver their delayed part exactly once, after the delay. *)
 From Coq Require Import ZArith Reals List Bool Arith.
 From BS Require Import Base.Arith Model.Term Model.Interface Model.Rules Model.Random Model.Queue Model.SSA
-                       Proofs.DelayProofs Proofs.QueueProofs Proofs.QueueHistory Proofs.DelayAccounting Proofs.DelayVolumeAccounting.
+                       Proofs.DelayProofs Proofs.QueueProofs Proofs.QueueHistory Proofs.DelayAccounting Proofs.DelayVolumeAccounting
+                       Base.CyPrelude Gen.QueueGen Proofs.TieQueue.
 Import ListNotations.
 
 (* One iteration of the delay-capable loop (any arithmetic, stream, network): on the rule-updated
@@ -82,6 +83,16 @@ Proof. intros s vm ncols fuel gfuel V0 qdt qt ts u pos st H1 H2 H3. exact (delay
    with the plain simulator at zero delay (rests on memorylessness, C05), and that Box-Muller /
    Marsaglia-Tsang have the Normal / Gamma laws (classical analysis). *)
 
+(* The queue the loops above drive is the one the source defines NOW: the methods of ArrayDelayQueue regenerated from
+   bioscrape/simulator.pyx on this run simulate the queue model of the loop theorems for any history of add_reaction /
+   read-and-advance / set_current_time (see Props/C20.v, C20_source_history). *)
+Theorem C10_source_queue :
+  forall F (A : Arith F) ops (o : @ArrayDelayQueue_obj F) q' ds,
+  wf_obj o -> (0 < ArrayDelayQueue_num_cols o)%nat ->
+  hand_run A (q_abs o) ops = Some (q', ds) ->
+  q_abs (fst (gen_run A o ops)) = q' /\ snd (gen_run A o ops) = ds /\ wf_obj (fst (gen_run A o ops)).
+Proof. exact @tie_history. Qed.
+
 Print Assumptions C10_iteration_steps.
 Print Assumptions C10_queue_delivers_exactly_once.
 Print Assumptions C10_fixed_delay.
@@ -89,3 +100,4 @@ Print Assumptions C10_box_muller_form.
 Print Assumptions C10_marsaglia_tsang_form.
 Print Assumptions C10_whole_run_accounting.
 Print Assumptions C10_delay_volume_whole_run_accounting.
+Print Assumptions C10_source_queue.
